@@ -73,7 +73,7 @@ def parsePackage : P Ident := do
   let id ← identifier "parse_package"
   if id.name ≠ "_" then pure id else elseErrorAt id.pos "package name can't be blank" "parse_package"
 
-/-- parser.rs:360-389 (note the second `next()` in the string arm) -/
+/-- parser.rs `parse_import_spec` -/
 def parseImportSpec : P Import := do
   let expList : List TokenKind := [Operator.Dot, LitKind.Ident, LitKind.String]
   let some (pos, tok) ← takeCurrent | elseError "unexpected EOF" "parse_import_spec"
@@ -86,7 +86,6 @@ def parseImportSpec : P Import := do
     let path ← stringLiteral
     return { name := some { pos, name := "." }, path }
   | .literal .String value => do
-    next
     return { name := none, path := { pos, value := String.ofList value } }
   | other => unexpected expList (some (pos, other)) "parse_import_spec"
 
@@ -872,7 +871,7 @@ def parseDeferStmt (r : Tbl) : P DeferStmt := do
   let pos ← expect Keyword.Defer
   match ← r.expression with
   | .Call call => do
-    let _ ← expect Operator.SemiColon "parse_defer_stmt"
+    let _ ← skipped Operator.SemiColon
     return .mk pos call
   | _ => elseErrorAt (pos + 2) "must be invoked function after go" "parse_defer_stmt"
 
@@ -935,7 +934,7 @@ def parseIfStmtBody (r : Tbl) : P IfStmt := do
       | some (_, .keyword .If) => do pure (some (.If (← r.parseIfStmt)))
       | some (_, .operator .BraceLeft) => do
         let block ← r.parseBlockStmt
-        let _ ← expect Operator.SemiColon "parse_if_stmt else"
+        let _ ← skipped Operator.SemiColon
         pure (some (.Block block))
       | _ => elseError "expect else or if statement" "parse_if_stmt"
     else pure none
